@@ -1,9 +1,10 @@
 """Known-findings file: read-only at run time.
 
 known_findings.json = {"findings": [ {property, key, status: "open"|"fixed", what, commit?, replay?} ]}
-A key may end in '*' (prefix match) when one defect shows at a family of coordinates that is
-spelled out in the entry's `what`; otherwise keys match exactly. `fixed` entries suppress nothing.
+A key may contain '*' wildcards when one defect shows at a family of coordinates that is spelled out
+in the entry's `what`; otherwise keys match exactly. `fixed` entries suppress nothing.
 """
+import fnmatch
 import json
 import os
 
@@ -23,6 +24,6 @@ def load(pid):
 def match(entries, key):
     for e in entries:
         k = e["key"]
-        if k == key or (k.endswith("*") and key.startswith(k[:-1])):
+        if k == key or ("*" in k and fnmatch.fnmatchcase(key, k.replace("[", "[[]"))):
             return e
     return None
